@@ -101,7 +101,7 @@ PURE_METHODS = {"lower", "upper", "strip", "lstrip", "rstrip", "startswith", "en
 
 def _is_builtin_class(name):
     import builtins
-    return isinstance(getattr(builtins, name, None), type) and issubclass(getattr(builtins, name), BaseException)
+    return isinstance(getattr(builtins, name, None), type)
 
 
 class Outcome:
@@ -207,6 +207,8 @@ class Explorer:
                     return True
                 g = e.generators[i]
                 seq = self.ev(g.iter, env2)
+                if isinstance(seq, (type({}.items()), type({}.keys()), type({}.values()))):
+                    seq = tuple(seq)
                 if seq is UNKNOWN or isinstance(seq, _Refined) or not isinstance(seq, (tuple, list, str, bytes, dict, set, frozenset)):
                     return False
                 for item in seq:
@@ -236,7 +238,7 @@ class Explorer:
                 vs = [self.ev(x, env) for x in e.values]
             except Exception:
                 return UNKNOWN
-            if any(x is UNKNOWN for x in ks + vs):
+            if any(x is UNKNOWN for x in ks):
                 return UNKNOWN
             try:
                 return dict(zip(ks, vs))
@@ -517,6 +519,23 @@ class Explorer:
         st = node.ast
         if node.kind != "stmt":
             return env
+        if isinstance(st, ast.Assign) and len(st.targets) == 1 and isinstance(st.targets[0], ast.Subscript):
+            # item store into a tracked dict: `kwargs["type"] = v`
+            t = st.targets[0]
+            k = self.key_of(t.value)
+            if k is not None and k not in self.frozen and k in env and isinstance(env[k], dict):
+                idx = self.ev(t.slice, env)
+                new = dict(env)
+                if idx is UNKNOWN or isinstance(idx, _Refined):
+                    new[k] = UNKNOWN
+                else:
+                    d = dict(env[k])
+                    try:
+                        d[idx] = self.ev(st.value, env)
+                        new[k] = d
+                    except TypeError:
+                        new[k] = UNKNOWN
+                return new
         if isinstance(st, ast.Assign):
             val = None
             new = None
@@ -541,9 +560,48 @@ class Explorer:
                         new[k] = v
             return new if new is not None else env
         if isinstance(st, ast.Expr) and isinstance(st.value, ast.Call) and isinstance(st.value.func, ast.Attribute):
-            # in-place growth of a tracked sequence (lists are modelled as tuples): `acc.append(x)`
             c = st.value
             k = self.key_of(c.func.value)
+            if k is not None and k not in self.frozen and k in env and isinstance(env[k], dict):
+                # in-place change of a tracked dict
+                m = c.func.attr
+                new = dict(env)
+                args = [self.ev(a, env) for a in c.args]
+                d = dict(env[k])
+                if c.keywords and m != "update":
+                    new[k] = UNKNOWN if m in MUTATORS else env[k]
+                elif m == "pop" and args and args[0] is not UNKNOWN:
+                    try:
+                        d.pop(args[0], None)
+                        new[k] = d
+                    except TypeError:
+                        new[k] = UNKNOWN
+                elif m == "update":
+                    ok = True
+                    for a in args:
+                        if isinstance(a, dict):
+                            d.update(a)
+                        elif isinstance(a, (tuple, list)) and all(isinstance(x, (tuple, list)) and len(x) == 2 for x in a):
+                            d.update(dict(a))
+                        else:
+                            ok = False
+                    for kw in c.keywords:
+                        if kw.arg is None:
+                            ok = False
+                        else:
+                            d[kw.arg] = self.ev(kw.value, env)
+                    new[k] = d if ok else UNKNOWN
+                elif m == "setdefault" and len(args) == 2 and args[0] is not UNKNOWN:
+                    d.setdefault(args[0], args[1])
+                    new[k] = d
+                elif m == "clear":
+                    new[k] = {}
+                elif m in MUTATORS:
+                    new[k] = UNKNOWN
+                else:
+                    return env
+                return new
+            # in-place growth of a tracked sequence (lists are modelled as tuples): `acc.append(x)`
             if k is not None and k not in self.frozen and k in env and isinstance(env[k], tuple):
                 m = c.func.attr
                 cur = env[k]
